@@ -80,6 +80,16 @@ pub struct Bounds {
     pub heal_us: u64,
 }
 
+/// Content-triggered slow-leader fault: when round r-1 is first seen on the wire and r is in
+/// `rounds`, all consensus traffic leaving the leader of r is held for `len_us`.
+#[derive(Clone, Debug, Serialize, Deserialize, Default)]
+pub struct MuteCfg {
+    pub rounds: Vec<u64>,
+    pub len_us: u64,
+    /// Probability (keyed per round) that one destination is spared.
+    pub partial_prob: f64,
+}
+
 #[derive(Clone, Debug, Serialize, Deserialize)]
 pub struct Scenario {
     pub world: String,
@@ -94,6 +104,8 @@ pub struct Scenario {
     pub events: Vec<TimedEvent>,
     pub adv: AdvCfg,
     pub bounds: Bounds,
+    #[serde(default)]
+    pub mute: Option<MuteCfg>,
     pub tokio_event_interval: u32,
     pub tokio_global_queue_interval: u32,
     /// Free-form world-specific script (puppet steps, component workloads).
